@@ -396,6 +396,43 @@ func (r *c38Run) deliver(n int, op fsnotify.Op) bool {
 	return true
 }
 
+// storm: after an operation, notifications about the config file keep arriving
+// (duplicates, touches) less than the debounce apart for well over a second. The
+// reload of the content the file has since the operation must not wait for the
+// stream to pause: the loop is single-threaded, so once it has accepted a later
+// event, a callback it chose earlier has completed. The debounce timer (100 ms)
+// has expired long before the stream ends (>= 1.2 s and >= 40 events), and each of
+// the loop's later selects picks a ready timer with probability >= 1/2.
+func (r *c38Run) storm(op fsnotify.Op, at int) bool {
+	r.mu.Lock()
+	w, dead, seq0 := r.w, r.wDead, r.opSeq
+	r.mu.Unlock()
+	if dead {
+		return true
+	}
+	start := time.Now()
+	for n := 0; n < 40 || time.Since(start) < 1200*time.Millisecond; n++ {
+		if n > 600 || !w.send(fsnotify.Event{Name: r.path, Op: op}) {
+			return false
+		}
+		time.Sleep(30 * time.Millisecond)
+	}
+	if !w.send(r.marker()) {
+		return false
+	}
+	r.mu.Lock()
+	defer r.mu.Unlock()
+	if r.opSeq != seq0 || r.wDead || r.w != w {
+		return true // the file changed again meanwhile (in-callback operation): judged by settle
+	}
+	if r.loaded != r.cur && r.viol == nil && !r.abaPattern() {
+		f := func(s string) string { return strings.TrimPrefix(s, "\x00") }
+		r.fail("eventual:postponed-by-duplicate-notifications", "after op %d the file has been %q for %v while duplicate notifications kept arriving every 30 ms; the loop accepted all of them but the last reload (of %d) read %q\n%s",
+			at, f(r.cur), time.Since(start).Round(time.Millisecond), r.calls, f(r.loaded), r.dump())
+	}
+	return true
+}
+
 // abaPattern: the final content F was established by an operation after callback
 // k-1 started, then replaced, before callback k (the last one) read the file.
 // Then `evaluated` may be the fingerprint of F although the callback read
@@ -626,6 +663,8 @@ func c38RunScript(sc c38Script, interval time.Duration) (res c38Result) {
 			okSend = r.deliver(1, fsOp(op))
 		case "dup":
 			okSend = r.deliver(3, fsOp(op))
+		case "storm":
+			okSend = r.storm(fsOp(op), i)
 		case "delay":
 			delayed = append(delayed, pending{at: i + 1 + op.DelayBy, op: fsOp(op)})
 		}
@@ -855,7 +894,7 @@ func c38GenOp(t *rapid.T, cur string) c38Op {
 	op := c38Op{
 		Kind:    rapid.SampledFrom([]string{"write", "write", "replace", "replace", "delete", "recreate"}).Draw(t, "kind"),
 		DelayMs: rapid.SampledFrom([]int{0, 0, 0, 1, 3, 8, 15, 40, 90, 105, 130}).Draw(t, "delay"),
-		Notify:  rapid.SampledFrom([]string{"deliver", "drop", "drop", "dup", "delay"}).Draw(t, "notify"),
+		Notify:  rapid.SampledFrom([]string{"deliver", "drop", "drop", "dup", "delay", "deliver", "drop", "drop", "dup", "delay", "storm"}).Draw(t, "notify"),
 	}
 	if op.Kind != "delete" {
 		op.Content = rapid.SampledFrom([]string{"a", "b", "c"}).Draw(t, "content")
@@ -984,7 +1023,7 @@ func c38GenCase(t *rapid.T) c38Case {
 	return c
 }
 
-const c38Rule = "batches of up to 6 (thorough 8) scripts run in parallel, each against its own real file and watch loop (fake eventWatcher, reconcile interval 5/10/25 ms, production debounce 100 ms): 1..8 operations {write, atomic replace, delete, recreate} over contents {a,b,c,missing} anchored to delays 0..130 ms or to 'inside callback k before/after it reads the file', each notification delivered / dropped / triplicated / delayed by 0..2 steps; in a quarter of the scripts the fs watcher fails before some operation (all later notifications are lost) and creating a new one fails 0/1/3 times or for good; shapes: random, X->Y->X inside a debounce window, bursts, settle-per-change phases, change during the callback, ABA around the callback's read. Oracles: eventual delivery after generous wait + liveness proof + re-wait; callback with the file untouched; callback for provably already evaluated content (order-only knowledge from delivered notification + marker event); no overlapping callbacks. Latency is measured, never judged. non-trivial = batch contains a script with >=1 dropped notification and a change back to an earlier content"
+const c38Rule = "batches of up to 6 (thorough 8) scripts run in parallel, each against its own real file and watch loop (fake eventWatcher, reconcile interval 5/10/25 ms, production debounce 100 ms): 1..8 operations {write, atomic replace, delete, recreate} over contents {a,b,c,missing} anchored to delays 0..130 ms or to 'inside callback k before/after it reads the file', each notification delivered / dropped / triplicated / delayed by 0..2 steps / followed by a >= 1.2 s stream of duplicates 30 ms apart (the reload must not wait for the stream to end); in a quarter of the scripts the fs watcher fails before some operation (all later notifications are lost) and creating a new one fails 0/1/3 times or for good; shapes: random, X->Y->X inside a debounce window, bursts, settle-per-change phases, change during the callback, ABA around the callback's read. Oracles: eventual delivery after generous wait + liveness proof + re-wait; callback with the file untouched; callback for provably already evaluated content (order-only knowledge from delivered notification + marker event); no overlapping callbacks. Latency is measured, never judged. non-trivial = batch contains a script with >=1 dropped notification and a change back to an earlier content"
 
 func TestVerif_C38(t *testing.T) {
 	verifkit.Check(t, "C38", "reload", c38Rule, c38GenCase, c38RunCase)
